@@ -22,6 +22,8 @@ VERIF_DIR = os.path.dirname(os.path.dirname(os.path.abspath(__file__)))
 REPO_DIR = os.path.abspath(os.environ.get("VERIF_REPO", "/repo"))
 
 EPS32 = float(np.finfo(np.float32).eps)
+import re
+_NUM = re.compile(r"[-+]?\d[\d.]*(?:e[-+]?\d+)?")
 
 
 class Violation(Exception):
@@ -211,7 +213,7 @@ class Ctx:
             raise Violation("%s: non-finite value at index %s (got %r, expected %r)" % (
                 what, tuple(int(b) for b in bad), got[tuple(bad)], want[tuple(bad)]))
         err = float(np.max(d)) / scale
-        self.residual(name or what, err, tol)
+        self.residual(name or _NUM.sub("#", what), err, tol)
         if err > tol:
             idx = np.unravel_index(int(np.argmax(d)), d.shape) if d.ndim else ()
             raise Violation("%s: relative error %.3g > tol %.3g at index %s (got %r, expected %r, scale %.3g)" % (
